@@ -147,8 +147,58 @@ func c20TypeOfVal(v V) reflect.Type {
 	return nil
 }
 
+// nodes built so far for the current top-level value, by sharing id
+var c20Shared = map[int]reflect.Value{}
+var c20SharedText = map[int]string{}
+
+// c20ShareID returns the sharing id of a slice / map / pointer node (0 = none):
+// one more trailing element after the regular ones.
+func c20ShareID(v V, regular int) int {
+	if len(v.L) == regular+1 {
+		id := v.L[regular].Int()
+		if id <= 0 {
+			c20Fatal("sharing id must be > 0")
+		}
+		return id
+	}
+	return 0
+}
+
 // c20Build builds a value of type t from its description.
 func c20Build(v V, t reflect.Type) reflect.Value {
+	if !v.IsList() || len(v.L) == 0 || v.L[0].IsList() {
+		c20Fatal("bad value")
+	}
+	id := 0
+	switch v.L[0].Int() {
+	case 23:
+		id = c20ShareID(v, 4)
+	case 21:
+		id = c20ShareID(v, 5)
+	case 22:
+		id = c20ShareID(v, 3)
+	}
+	if id != 0 {
+		if old, ok := c20Shared[id]; ok {
+			if old.Type() != t {
+				c20Fatal("shared node %d used at two types: %s and %s", id, old.Type(), t)
+			}
+			if c20SharedText[id] != c20Dump(v) {
+				// (the shrinker may cut one occurrence only: not a value the text describes)
+				c20Fatal("shared node %d has two different texts", id)
+			}
+			return old
+		}
+	}
+	r := c20Build1(v, t)
+	if id != 0 {
+		c20Shared[id] = r
+		c20SharedText[id] = c20Dump(v)
+	}
+	return r
+}
+
+func c20Build1(v V, t reflect.Type) reflect.Value {
 	if !v.IsList() || len(v.L) == 0 || v.L[0].IsList() {
 		c20Fatal("bad value")
 	}
@@ -169,7 +219,9 @@ func c20Build(v V, t reflect.Type) reflect.Value {
 	case k == 15 || k == 16:
 		r.SetComplex(complex(float64(v.L[1].I64()), 2))
 	case k == 24:
-		r.SetString(v.L[1].Str())
+		// a substring of a longer string (the bytes around it must not count)
+		str := v.L[1].Str()
+		r.SetString(("<" + str + ">>")[1 : 1+len(str)])
 	case k == 23:
 		if v.L[2].Z.Sign() != 0 {
 			if len(v.L[3].L) != 0 {
@@ -178,7 +230,11 @@ func c20Build(v V, t reflect.Type) reflect.Value {
 			return r // nil slice
 		}
 		n := len(v.L[3].L)
-		s := reflect.MakeSlice(t, n, n+n%3) // spare capacity must not count
+		// spare capacity and elements outside [0,len) must not count: the slice is a
+		// window [off, off+n) of a larger backing array, cap > len in 2 cases of 3
+		off := n % 2
+		big := reflect.MakeSlice(t, off+n+(n+1)%3, off+n+(n+1)%3+n%2)
+		s := big.Slice(off, off+n)
 		for i, e := range v.L[3].L {
 			s.Index(i).Set(c20Build(e, t.Elem()))
 		}
@@ -255,6 +311,8 @@ func c20Arg(v V) (data interface{}) {
 			c20Fatal("cannot build the value: %v", e)
 		}
 	}()
+	c20Shared = map[int]reflect.Value{}
+	c20SharedText = map[int]string{}
 	if v.IsList() && len(v.L) == 1 && !v.L[0].IsList() && v.L[0].Z.Sign() == 0 {
 		return nil
 	}
@@ -453,6 +511,38 @@ func c20RandType(r *Rand, depth int, comparable bool) *c20T {
 type c20Gen struct {
 	r      *Rand
 	budget int // remaining nodes; when exhausted every nil-able container becomes nil
+	// sharing: non-nil slices / maps / pointers already generated for the current
+	// case that carry a sharing id, by type text; a later node of the same type
+	// may reuse one of them (same text, same id => the SAME Go object)
+	pool   map[string][]string
+	nextID int
+	share  int // 0 = never share; otherwise 1 node in `share` gets an id / reuses one
+}
+
+func (c *c20Gen) reset(share int) {
+	c.pool = map[string][]string{}
+	c.nextID = 0
+	c.share = share
+}
+
+// reuse returns an already generated shared node of this type, if the dice say so
+func (c *c20Gen) reuse(ty string) (string, bool) {
+	if c.share == 0 || len(c.pool[ty]) == 0 || c.r.Intn(c.share) != 0 {
+		return "", false
+	}
+	return c.pool[ty][c.r.Intn(len(c.pool[ty]))], true
+}
+
+// fresh wraps up a newly generated node (its elements without the closing
+// bracket are in parts); 1 in `share` gets a sharing id and enters the pool
+func (c *c20Gen) fresh(ty string, parts ...string) string {
+	if c.share == 0 || c.r.Intn(c.share) != 0 {
+		return L(parts...)
+	}
+	c.nextID++
+	text := L(append(parts, Int(c.nextID))...)
+	c.pool[ty] = append(c.pool[ty], text)
+	return text
 }
 
 func c20Str(r *Rand) string {
@@ -477,12 +567,15 @@ func (c *c20Gen) val(t *c20T, depth int) string {
 		if out || r.Intn(7) == 0 {
 			return L("23", t.Elem.Text(), "1", L())
 		}
+		if old, ok := c.reuse(t.Text()); ok {
+			return old
+		}
 		n := r.Pick(0, 1, 1, 2, 2, 3, 4, 6)
 		xs := make([]string, n)
 		for i := range xs {
 			xs[i] = c.val(t.Elem, depth-1)
 		}
-		return L("23", t.Elem.Text(), "0", L(xs...))
+		return c.fresh(t.Text(), "23", t.Elem.Text(), "0", L(xs...))
 	case t.K == 17:
 		xs := make([]string, t.N)
 		for i := range xs {
@@ -493,17 +586,23 @@ func (c *c20Gen) val(t *c20T, depth int) string {
 		if out || r.Intn(7) == 0 {
 			return L("21", t.Key.Text(), t.Elem.Text(), "1", L())
 		}
+		if old, ok := c.reuse(t.Text()); ok {
+			return old
+		}
 		n := minInt(r.Pick(0, 1, 1, 2, 3, 4), t.Key.keyCap())
 		xs := make([]string, n)
 		for i := range xs {
 			xs[i] = L(c.key(t.Key, i, depth-1), c.val(t.Elem, depth-1))
 		}
-		return L("21", t.Key.Text(), t.Elem.Text(), "0", L(xs...))
+		return c.fresh(t.Text(), "21", t.Key.Text(), t.Elem.Text(), "0", L(xs...))
 	case t.K == 22:
 		if out || r.Intn(5) == 0 {
 			return L("22", t.Elem.Text(), L())
 		}
-		return L("22", t.Elem.Text(), L(c.val(t.Elem, depth-1)))
+		if old, ok := c.reuse(t.Text()); ok {
+			return old
+		}
+		return c.fresh(t.Text(), "22", t.Elem.Text(), L(c.val(t.Elem, depth-1)))
 	case t.K == 20:
 		if out || r.Intn(4) == 0 {
 			return L("20", Int(t.W), L())
@@ -591,6 +690,7 @@ type c20Shape struct {
 	nils  map[string]bool
 	uint_ bool
 	nodes int
+	ids   map[int]int // sharing id -> number of occurrences
 }
 
 var c20KindName = map[int]string{17: "A", 20: "I", 21: "M", 22: "P", 23: "S", 24: "s", 25: "T"}
@@ -608,6 +708,9 @@ func (s *c20Shape) walk(v V, d int) {
 		s.depth = d + 1
 	}
 	s.kinds[c20KindName[k]] = true
+	if reg := map[int]int{23: 4, 21: 5, 22: 3}[k]; reg != 0 && len(v.L) == reg+1 {
+		s.ids[v.L[reg].Int()]++
+	}
 	switch k {
 	case 23:
 		if v.L[2].Z.Sign() != 0 {
@@ -670,12 +773,18 @@ func c20Key(text string) (string, int) {
 	if len(v.L) == 1 {
 		return "", 0
 	}
-	s := &c20Shape{kinds: map[string]bool{}, nils: map[string]bool{}}
+	s := &c20Shape{kinds: map[string]bool{}, nils: map[string]bool{}, ids: map[int]int{}}
 	s.walk(v, 0)
 	if s.depth < 2 {
 		return "", s.depth
 	}
-	return fmt.Sprintf("d%d/%s/nil:%s/u%s", minInt(s.depth, 6), c20Set(s.kinds), c20Set(s.nils), B(s.uint_)), s.depth
+	sh := ""
+	for _, n := range s.ids {
+		if n >= 2 {
+			sh = "/shared"
+		}
+	}
+	return fmt.Sprintf("d%d/%s/nil:%s/u%s%s", minInt(s.depth, 6), c20Set(s.kinds), c20Set(s.nils), B(s.uint_), sh), s.depth
 }
 
 func genC20(g *Gen) {
@@ -692,6 +801,7 @@ func genC20(g *Gen) {
 		g.Do("size.Stat", L(text, Int(d), Int(m)), sk)
 	}
 	gen := &c20Gen{r: g.R, budget: 1 << 30}
+	gen.reset(0)
 
 	// (1) nil; every scalar kind; every string length 0..40
 	emit("[0]", "exh-scalar")
@@ -817,10 +927,111 @@ func genC20(g *Gen) {
 	}
 	g.Exhaust = append(g.Exhaust, fmt.Sprintf("two levels: all %dx%d compositions of the container shapes over %d leaf types", len(all), len(all), len(inner)))
 
+
+	// (3b) SHARING: the same pointer / slice / map reached twice is counted twice (size.Of is a
+	// tree sum over the unfolding).  Every sharing pattern over every leaf type and some composites.
+	type tv struct {
+		t *c20T
+		v func(i int) string
+	}
+	elems := []tv{}
+	for _, e := range leaves {
+		e := e
+		elems = append(elems, tv{e, func(i int) string { return leafVal(e, i) }})
+	}
+	strT, i8T := c20S(24), c20S(3)
+	elems = append(elems,
+		tv{&c20T{K: 25, Fields: []*c20T{strT, i8T}}, func(i int) string { return L("25", L(leafVal(strT, i), leafVal(i8T, i))) }},
+		tv{&c20T{K: 23, Elem: i8T}, func(i int) string { return L("23", "[3]", "0", L(leafVal(i8T, i), leafVal(i8T, i+1))) }},
+		tv{&c20T{K: 17, Elem: strT, N: 2}, func(i int) string { return L("17", "[24]", L(leafVal(strT, i), leafVal(strT, i+5))) }},
+		tv{&c20T{K: 22, Elem: c20S(7)}, func(i int) string { return L("22", "[7]", L(leafVal(c20S(7), i))) }},
+		tv{&c20T{K: 20}, func(i int) string { return L("20", "0", L(leafVal(strT, i))) }},
+	)
+	nShare := 0
+	for _, e := range elems {
+		T := e.t.Text()
+		PT := L("22", T)
+		p := func(i, id int) string { // pointer to the i-th value, sharing id (0 = unshared)
+			if id == 0 {
+				return L("22", T, L(e.v(i)))
+			}
+			return L("22", T, L(e.v(i)), Int(id))
+		}
+		sl := func(id int) string { return L("23", T, "0", L(e.v(0), e.v(1)), Int(id)) }
+		mp := func(id int) string {
+			return L("21", "[24]", T, "0", L(L(L("24", Str("k")), e.v(0)), L(L("24", Str("key2")), e.v(1))), Int(id))
+		}
+		S := L("25", L(PT)) // struct{F0 *T}
+		node := func(inner string, id int) string { // *struct{F0 *T}
+			if id == 0 {
+				return L("22", S, L(L("25", L(inner))))
+			}
+			return L("22", S, L(L("25", L(inner))), Int(id))
+		}
+		cases := []string{
+			// same pointer twice / three times in a slice; mixed with an equal but distinct one
+			L("23", PT, "0", L(p(0, 1), p(0, 1))),
+			L("23", PT, "0", L(p(0, 1), p(0, 0), p(0, 1), p(0, 1))),
+			L("23", PT, "0", L(p(0, 1), p(1, 2), p(0, 1), p(1, 2))),
+			// array, struct fields, pointer to such a struct
+			L("17", PT, L(p(0, 1), p(0, 1))),
+			L("25", L(p(0, 1), "[1,1]", p(0, 1))),
+			L("22", L("25", L(PT, PT)), L(L("25", L(p(0, 3), p(0, 3))))),
+			// a field and an interface holding the same pointer (both orders)
+			L("25", L(p(0, 1), L("20", "0", L(p(0, 1))))),
+			L("25", L(L("20", "0", L(p(0, 1))), p(0, 1))),
+			L("23", "[20,0]", "0", L(L("20", "0", L(p(0, 1))), L("20", "0", L(p(0, 1))))),
+			// two map values; a map value and a field
+			L("21", "[24]", PT, "0", L(L(L("24", Str("a")), p(0, 1)), L(L("24", Str("bb")), p(0, 1)))),
+			L("25", L(L("21", "[5]", PT, "0", L(L("[5,1]", p(0, 1)))), p(0, 1))),
+			// diamond: two distinct nodes sharing a successor; the same node twice (shared at both levels)
+			L("25", L(node(p(0, 1), 0), node(p(0, 1), 0))),
+			L("25", L(node(p(0, 1), 2), node(p(0, 1), 2))),
+			L("23", L("22", S), "0", L(node(p(0, 1), 2), node(p(0, 1), 3), node(p(0, 1), 2))),
+			// pointer to pointer: shared outer; distinct outers sharing the inner
+			L("23", L("22", PT), "0", L(L("22", PT, L(p(0, 1)), "2"), L("22", PT, L(p(0, 1)), "2"))),
+			L("23", L("22", PT), "0", L(L("22", PT, L(p(0, 1))), L("22", PT, L(p(0, 1))))),
+			// the pointer at two depths
+			L("25", L(p(0, 1), L("23", PT, "0", L(p(0, 1))))),
+			// the same slice / the same map twice
+			L("25", L(sl(1), sl(1))),
+			L("23", L("23", T), "0", L(sl(1), sl(1), sl(1))),
+			L("25", L(mp(1), mp(1))),
+			L("17", L("21", "[24]", T), L(mp(1), mp(1))),
+		}
+		for _, c := range cases {
+			emit(c, "exh-sharing")
+			nShare++
+		}
+	}
+	g.Exhaust = append(g.Exhaust, fmt.Sprintf("sharing: 21 patterns (same pointer twice in a slice/array/struct/map, in a field and in an interface, diamonds, shared **T, shared slices and maps) x %d element types", len(elems)))
+
+	// (3c) slices / arrays whose elements are ARRAYS of non-scalars: outer x array length x inner shape x leaf type
+	for _, e := range inner {
+		e := e
+		for _, in := range all {
+			in := in
+			it := shapeType(in, e)
+			for _, n := range []int{1, 2, 3} {
+				at := &c20T{K: 17, Elem: it, N: n}
+				arr := func(base int) string {
+					return L("17", it.Text(), rep(n, func(i int) string {
+						return in.mk(e, func(j int) string { return leafVal(e, base+2*i+j) })
+					}))
+				}
+				emit(L("23", at.Text(), "0", rep(2, func(i int) string { return arr(3 * i) })), "exh-arrays")
+				emit(L("17", at.Text(), rep(2, func(i int) string { return arr(3 * i) })), "exh-arrays")
+				emit(L("23", L("17", at.Text(), "1"), "0", L(L("17", at.Text(), L(arr(1))))), "exh-arrays")
+			}
+		}
+	}
+	g.Exhaust = append(g.Exhaust, fmt.Sprintf("arrays of non-scalars: []([n]X), [2][n]X, [][1][n]X for n in 1..3, X over the %d container shapes x %d leaf types", len(all), len(inner)))
+
 	// (4) hand-declared types: unexported fields, a recursive type, a method-carrying interface
 	for k := 0; k < g.N(40, 400); k++ {
 		t := c20S(g.R.Pick(c20KMy, c20KMy, c20KAB, c20KRI, c20KUU))
 		gen.budget = g.R.Pick(10, 40, 200)
+		gen.reset(g.R.Pick(0, 2, 3))
 		wrap := &c20T{K: g.R.Pick(22, 23), Elem: t}
 		emit(gen.val(wrap, g.R.Range(2, 6)), "named")
 	}
@@ -837,6 +1048,7 @@ func genC20(g *Gen) {
 			}
 		}
 		gen.budget = g.R.Pick(5, 20, 60, 150, 400)
+		gen.reset(g.R.Pick(0, 0, 2, 3, 5))
 		text := gen.val(t, depth+1)
 		if len(text) > 20000 {
 			k--
